@@ -1439,11 +1439,17 @@ const char* rtosc_skip_next_printed_arg(const char* src, int* skipped,
                                                 NULL, 0, inside_bundle);
                     if(types_match(llhstype, lhstype))
                     {
-                        rtosc_scan_arg_val(llhssrc, &llhsarg, 1,
-                                           NULL, &zero, 0, 0);
-                        if(!rtosc_arg_vals_cmp_single(&llhsarg, &lhsarg, NULL))
+                        // only numeric ranges have a delta; other values
+                        // (e.g. strings) can not be scanned without a buffer
+                        if(numeric_range)
                         {
-                            llhsarg_is_useless = true;
+                            rtosc_scan_arg_val(llhssrc, &llhsarg, 1,
+                                               NULL, &zero, 0, 0);
+                            if(!rtosc_arg_vals_cmp_single(&llhsarg, &lhsarg,
+                                                          NULL))
+                            {
+                                llhsarg_is_useless = true;
+                            }
                         }
                         // hint: use rtosc_arg_val_range_arg here if
                         // overlapping ranges (1 ... 5 ... 9) shall be
